@@ -776,8 +776,9 @@ Definition a_strip_bom (a : astream) : (ioerr + astream) :=
    needs its delimiter within the first MaxScanTokenSize bytes of what is left (else
    bufio.ErrTooLong).  HAZARD: exactly MaxScanTokenSize bytes without delimiter are left -- the
    scanner answers ErrTooLong or treats them as the end of the input depending on whether the
-   error arrived together with the last bytes (not reachable under omniparser's stack, where
-   bufio.Reader.Read below the scanner never returns data together with an error). *)
+   error arrived together with the last bytes (known finding F23; reachable through omniparser's
+   EDI stack because bufio.Reader.Read and BytesReplacingReader pass data and error on together
+   for large reads). *)
 Section AScan.
   Variable find : bytes -> option nat.
   Variable dlen : nat.
